@@ -3,34 +3,34 @@ From Coq Require Import List Bool Arith NArith Lia.
 Import ListNotations.
 From NV Require Import Gen.IRProcConsts38 IRProc.C38Model.
 
-Lemma admit_implies : forall cfg r,
-  admits cfg r = true ->
+Lemma accept_implies : forall cfg r,
+  accepts cfg r = true ->
   a_alphabet r = true /\ tx_valid r /\ forall v, In v cfg -> verdict r v = true.
 Proof.
-  intros cfg r H. unfold admits, composite in H.
+  intros cfg r H. unfold accepts, composite in H.
   repeat (apply andb_true_iff in H; destruct H as [H ?]).
   split; [assumption|]. split; [unfold tx_valid; apply Nat.eqb_eq; assumption|].
   intros v Hin. match goal with Hf : forallb _ cfg = true |- _ => rewrite forallb_forall in Hf; exact (Hf v Hin) end.
 Qed.
 
-Lemma admit_ref : forall cfg r, admits cfg r = true -> may_admit cfg r = true.
+Lemma accept_ref : forall cfg r, accepts cfg r = true -> may_accept cfg r = true.
 Proof.
-  intros cfg r H. unfold admits, composite in H. unfold may_admit.
+  intros cfg r H. unfold accepts, composite in H. unfold may_accept.
   repeat (apply andb_true_iff in H; destruct H as [H ?]).
   repeat (apply andb_true_iff; split); assumption.
 Qed.
 
-Lemma may_admit_sound : forall cfg r,
-  may_admit cfg r = true -> a_alphabet r = true /\ tx_valid r /\ forall v, In v cfg -> verdict r v = true.
+Lemma may_accept_sound : forall cfg r,
+  may_accept cfg r = true -> a_alphabet r = true /\ tx_valid r /\ forall v, In v cfg -> verdict r v = true.
 Proof.
-  intros cfg r H. unfold may_admit in H.
+  intros cfg r H. unfold may_accept in H.
   repeat (apply andb_true_iff in H; destruct H as [H ?]).
   split; [assumption|]. split; [unfold tx_valid; apply Nat.eqb_eq; assumption|].
   intros v Hin. match goal with Hf : forallb _ cfg = true |- _ => rewrite forallb_forall in Hf; exact (Hf v Hin) end.
 Qed.
 
-Lemma non_alphabet_never_admits : forall cfg r, a_alphabet r = false -> admits cfg r = false.
-Proof. intros cfg r H. unfold admits. rewrite H. reflexivity. Qed.
+Lemma non_alphabet_never_accepts : forall cfg r, a_alphabet r = false -> accepts cfg r = false.
+Proof. intros cfg r H. unfold accepts. rewrite H. reflexivity. Qed.
 
 (* ---- histories ---- *)
 
